@@ -8,10 +8,9 @@ open Pendulum Pendulum.Drv Pendulum.IsoDur
 def backend (w : String) : Option Backend :=
   if w == "rs" then some .rust else if w == "py" then some .py else none
 
-def errLine (k : Kind) : String :=
-  match k with
-  | .range => "err Range"
-  | _ => "err ParserError"
+/-- since the repair of C17/F3 (`parser.py`: an endpoint that is not a representable datetime is a ParserError) every
+    rejection reaches the caller as `ParserError` -/
+def errLine (_k : Kind) : String := "err ParserError"
 
 def dtInts (t : IsoInterval.DT) : List Int := [t.y, t.m, t.d, t.h, t.mi, t.s, t.us, t.off]
 
